@@ -390,6 +390,21 @@ char *textbuf_new(const std::string &text, bool writable) {
 }
 
 // ---- files ------------------------------------------------------------------------------
+// symbolic links (kind 3, data = target): every path-taking call but lstat/rename/unlink follows them
+static std::string resolve_links(const char *path) {
+  std::string cur = path;
+  for (int hops = 0; hops < 8; hops++) {
+    bool again = false;
+    for (SimFile &f : G.files)
+      if (f.kind == 3 && f.path == cur) {
+        cur = f.data;
+        again = true;
+        break;
+      }
+    if (!again) break;
+  }
+  return cur;
+}
 SimFile *file_lookup(const std::string &path) {
   for (SimFile &f : G.files)
     if (f.path == path) return &f;
@@ -1116,6 +1131,8 @@ extern "C" int __wrap_open(const char *path, int flags, ...) {
     G.fds.push_back(fd);
     return fd_of_index((int)G.fds.size() - 1);
   }
+  const std::string rpath_ = resolve_links(path);
+  path = rpath_.c_str();
   int fi = -1;
   for (size_t i = 0; i < G.files.size(); i++)
     if (G.files[i].path == path) fi = (int)i;
@@ -1307,8 +1324,9 @@ extern "C" int __wrap_stat(const char *path, struct stat *st) {
     errno = a->err ? a->err : EIO;
     return -1;
   }
+  const std::string rp = resolve_links(path);
   for (SimFile &f : G.files)
-    if (f.path == path) {
+    if (f.path == rp) {
       memset(st, 0, sizeof *st);
       st->st_size = f.kind == 2 ? 4096 : (off_t)f.data.size();
       st->st_mode = f.kind == 2 ? (S_IFDIR | 0755) : (S_IFREG | (f.kind == 1 ? 0000 : 0644));
@@ -1332,7 +1350,17 @@ static void flock_release(int k) {
 extern "C" int __real_lstat(const char *, struct stat *);
 extern "C" int __wrap_lstat(const char *path, struct stat *st) {
   if (!in_lib()) return __real_lstat(path, st);
-  return __wrap_stat(path, st);  // the simulated file system has no symbolic links
+  for (SimFile &f : G.files)
+    if (f.kind == 3 && f.path == path) {  // the link itself: its size is the length of the target's name
+      HarnessScope hs_;
+      memset(st, 0, sizeof *st);
+      st->st_size = (off_t)f.data.size();
+      st->st_mode = S_IFLNK | 0777;
+      st->st_blksize = 4096;
+      st->st_nlink = 1;
+      return 0;
+    }
+  return __wrap_stat(path, st);
 }
 extern "C" int __real_fsync(int);
 static int sim_sync(int fd) {
@@ -1508,6 +1536,8 @@ extern "C" FILE *__wrap_fopen(const char *path, const char *mode) {
     errno = ENAMETOOLONG;
     return nullptr;
   }
+  const std::string rpath_ = resolve_links(path);
+  path = rpath_.c_str();
   bool wr = strchr(mode, 'w') != nullptr, ap = strchr(mode, 'a') != nullptr;
   if (!wr && !ap) {
     // reading through stdio (a tree may load its input with fopen/fread/getline instead of open/read)
